@@ -47,12 +47,14 @@ def gen_codes(m, rng, job):
         run(m, {'op': 'scrub', 'leaves': [{'k': 'ints', 'v': [1, c], 'enc': 'joined'}]}, oplist)
     singles = [1, 4, 22, 31, 39, 53, 97, 107]
     groups = [[38, 5, 200], [48, 5, 0], [58, 5, 255], [38, 2, 1, 2, 3], [48, 2, 255, 0, 9], [58, 2, 0, 0, 0]]
+    # colour ARGUMENTS that look like the start of another colour function (38/48/58 followed by 2 or 5)
+    groups += [[38, 2, 48, 5, 200], [48, 2, 0, 38, 2], [38, 5, 38], [58, 2, 58, 5, 5], [38, 2, 38, 2, 38], [48, 5, 48], [38, 2, 5, 38, 5]]
     for g in groups:
         for a in ([], [4], [1, 31]):
             for z in ([], [1], [22, 4]):
                 for enc in ('int', 'str', 'joined', 'mixed'):
                     run(m, {'op': 'scrub', 'leaves': [{'k': 'ints', 'v': a + g + z, 'enc': enc}]}, oplist)
-        for g2 in groups[:3]:
+        for g2 in groups[:3] + groups[6:9]:
             run(m, {'op': 'scrub', 'leaves': [{'k': 'ints', 'v': [rng.choice(singles)] + g + g2, 'enc': rng.choice(['int', 'joined'])}]}, oplist)
     return oplist, {}
 
@@ -64,8 +66,9 @@ def fmtnum(v, hexa):
 def gen_colours(m, rng, job):
     """rgb()/color256() helper calls and their string spellings: boundary values, hex/decimal, brackets, spaces."""
     oplist = []
-    vals = [0, 1, 127, 255, 256, 300, 0x10, 0xff]
-    trip = [(0, 0, 0), (255, 255, 255), (1, 2, 3), (256, 0, 255), (300, 128, 999), (16, 32, 48), (0xAB, 0xCD, 0xEF)]
+    vals = [0, 1, 127, 255, 256, 300, 0x10, 0xff, 38, 48, 58, 5, 2]
+    trip = [(0, 0, 0), (255, 255, 255), (1, 2, 3), (256, 0, 255), (300, 128, 999), (16, 32, 48), (0xAB, 0xCD, 0xEF),
+            (48, 5, 200), (38, 2, 7), (0, 38, 2), (58, 5, 5), (38, 5, 38)]
     single = [0, 1, 0xFF, 0x100, 0x8A2BE2, 0xFFFFFF, 0x1000000, 0x12345678 & 0xFFFFFF]
     for comp, pre in COMPS:
         api_rgb = {'': 'rgb', 'fg_': 'fg_rgb', 'bg_': 'bg_rgb', 'ul_': 'ul_rgb', 'dul_': 'dul_rgb'}[pre]
@@ -188,6 +191,11 @@ CLASSES = [
     ([{'k': 'fmt', 'v': 'UL_RED'}, {'k': 'str', 'v': 'ul_red'}, {'k': 'str', 'v': 'UL-RED'}], ['4', '58;5;9']),
     ([{'k': 'call', 'fn': 'ul_rgb', 'v': [1, 2, 3]}, {'k': 'str', 'v': 'ul_rgb(1,2,3)'}, {'k': 'str', 'v': 'ul_rgb(0x010203)'}], ['4', '58;2;1;2;3']),
     ([{'k': 'fmt', 'v': 'NO_BOLD_FAINT'}, {'k': 'str', 'v': 'no bold faint'}, {'k': 'int', 'v': 22}], ['22']),
+    # colour arguments that look like the start of another colour function
+    ([{'k': 'call', 'fn': 'rgb', 'v': [48, 5, 200]}, {'k': 'str', 'v': 'rgb(48,5,200)'}, {'k': 'str', 'v': '38;2;48;5;200'},
+      {'k': 'list', 'v': [{'k': 'int', 'v': 38}, {'k': 'int', 'v': 2}, {'k': 'int', 'v': 48}, {'k': 'int', 'v': 5}, {'k': 'int', 'v': 200}]}], ['38;2;48;5;200']),
+    ([{'k': 'call', 'fn': 'bg_color256', 'v': [38]}, {'k': 'str', 'v': 'bg_color256(38)'}, {'k': 'str', 'v': '48;5;38'},
+      {'k': 'tuple', 'v': [{'k': 'int', 'v': 48}, {'k': 'int', 'v': 5}, {'k': 'int', 'v': 38}]}], ['48;5;38']),
     ([{'k': 'str', 'v': 'bold;red'}, {'k': 'str', 'v': '1;31'}, {'k': 'list', 'v': [{'k': 'str', 'v': 'bold'}, {'k': 'fmt', 'v': 'FG_RED'}]},
       {'k': 'list', 'v': [{'k': 'str', 'v': '1;31'}]}, {'k': 'tuple', 'v': [{'k': 'int', 'v': 1}, {'k': 'int', 'v': 31}]}], ['1', '31']),
 ]
